@@ -3,7 +3,8 @@
    [write] / [read] are the model of quill::tiny_v2::{write_string, read} (C03/Model.v),
    [canon] sorts every level by the derived Ord of the info structs (Quill/Mappings.v),
    [wf] / [textual] are the decidable hypotheses (Quill/Mappings.v, C03/Model.v). *)
-From FB Require Import C03.Model C03.Theory1 C03.Theory2 C03.Theory3 C03.Theory5 C03.Theory6 C03.Theory7.
+From FB Require Import C03.Model C03.ModelBytes C03.SrcGen C03.Theory1 C03.Theory2 C03.Theory3 C03.Theory5 C03.Theory6 C03.Theory7
+  C03.Theory8 C03.Theory9 C03.Theory10 C03.Theory11 C03.Theory12 C03.Theory13.
 
 (* Th 1 — round trip: a well-formed textual mapping set can be written, and reading the text
    back yields its canonical representative *)
@@ -105,7 +106,202 @@ Theorem C03_build_fuel_irrelevant : forall fuel fuel' d ls,
 Proof. exact build_fuel_irrelevant. Qed.
 Print Assumptions C03_build_fuel_irrelevant.
 
+(* ------------------------------------------------------------------------------------------ *)
+(* round 4 *)
+
+(* Th 6 — the reader as an equation: on every text whose lines are a header followed by a
+   well-indented forest, [read] is `if accepts then Ok skeleton else Err`, where [accepts]
+   (C03/Theory8.v) is the conjunction of the per-line conditions, "at most one comment per
+   node" and "no key twice below one parent"; every other text is rejected.  The accepted
+   texts are characterised exactly. *)
+Theorem C03_read_forest : forall n t h hsub tops,
+  map tiny_line (raw_lines t) = h :: flatten hsub ++ flatten tops ->
+  depth_ok 1 hsub -> depth_ok 0 tops ->
+  read n t = if accepts n h hsub tops then Ok (skeleton h hsub tops) else Err.
+Proof. exact read_forest. Qed.
+Print Assumptions C03_read_forest.
+
+Theorem C03_read_accepts_iff : forall n t M,
+  read n t = Ok M <->
+  exists h hsub tops,
+    map tiny_line (raw_lines t) = h :: flatten hsub ++ flatten tops
+    /\ depth_ok 1 hsub /\ depth_ok 0 tops
+    /\ accepts n h hsub tops = true /\ M = skeleton h hsub tops.
+Proof. exact read_accepts_iff. Qed.
+Print Assumptions C03_read_accepts_iff.
+
+Theorem C03_read_not_indented_err : forall n t,
+  (forall h hsub tops, map tiny_line (raw_lines t) = h :: flatten hsub ++ flatten tops ->
+     depth_ok 1 hsub -> depth_ok 0 tops -> False) ->
+  read n t = Err.
+Proof. exact read_not_indented_err. Qed.
+Print Assumptions C03_read_not_indented_err.
+
+Theorem C03_read_n_unique : forall n n' t M M', read n t = Ok M -> read n' t = Ok M' -> n = n' /\ M = M'.
+Proof. exact read_n_unique. Qed.
+Print Assumptions C03_read_n_unique.
+
+(* the outermost handler for ANY set already read: Ok iff every class section passes and no
+   class key occurs twice or is already there; then the classes are appended, nothing else *)
+Theorem C03_interp_top_spec : forall n f M,
+  interp_top n M f =
+    if top_okb n f && fresh (okey_eqb str_eqb) (map class_key (ms_classes M)) (class_keys f)
+    then Ok (mkMappings (ms_ns M) (ms_doc M) (ms_classes M ++ classes_of f)) else Err.
+Proof. exact interp_top_spec. Qed.
+Print Assumptions C03_interp_top_spec.
+
+(* what [fresh] means *)
+Theorem C03_fresh_iff : forall (old new : list (option str)),
+  fresh (okey_eqb str_eqb) old new = true <-> NoDup new /\ (forall k, In k new -> ~ In k old).
+Proof. exact fresh_class_keys_iff. Qed.
+Print Assumptions C03_fresh_iff.
+
+(* Th 7 — reading does not depend on the order of sibling sections.  [fperm]: the sibling lists
+   of a forest permuted at any level (C03/Theory9.v); such forests have the same lines, each at
+   its depth.  Two texts that differ that way are both rejected, or both read and the results
+   are the same content, written as the same text: nothing is merged with, lost to or moved to
+   a neighbouring section whatever the neighbours are. *)
+Theorem C03_fperm_same_lines : forall f f', fperm f f' ->
+  Permutation (flatten f) (flatten f') /\ (forall d, depth_ok d f -> depth_ok d f').
+Proof. exact fperm_same_lines. Qed.
+Print Assumptions C03_fperm_same_lines.
+
+Theorem C03_read_sibling_order : forall n t t' h hsub hsub' tops tops',
+  map tiny_line (raw_lines t) = h :: flatten hsub ++ flatten tops ->
+  map tiny_line (raw_lines t') = h :: flatten hsub' ++ flatten tops' ->
+  depth_ok 1 hsub -> depth_ok 0 tops ->
+  fperm hsub hsub' -> fperm tops tops' ->
+  match read n t, read n t' with
+  | Ok M, Ok M' => mappings_equiv M M'
+  | Err, Err => True
+  | _, _ => False
+  end.
+Proof. exact read_sibling_order. Qed.
+Print Assumptions C03_read_sibling_order.
+
+Theorem C03_read_sibling_order_write : forall n t t' h hsub hsub' tops tops' M,
+  map tiny_line (raw_lines t) = h :: flatten hsub ++ flatten tops ->
+  map tiny_line (raw_lines t') = h :: flatten hsub' ++ flatten tops' ->
+  depth_ok 1 hsub -> depth_ok 0 tops ->
+  fperm hsub hsub' -> fperm tops tops' ->
+  read n t = Ok M ->
+  exists M', read n t' = Ok M' /\ mappings_equiv M M' /\ write M = write M'.
+Proof. exact read_sibling_order_write. Qed.
+Print Assumptions C03_read_sibling_order_write.
+
+Theorem C03_sibling_example : sibling_example.
+Proof. exact sibling_example_holds. Qed.
+Print Assumptions C03_sibling_example.
+
+(* Th 8 — the bytes of the file.  Strict UTF-8 decoding and encoding are inverse; the reader on
+   bytes (BufRead::lines splits the bytes, every line is validated on its own) is Err on
+   anything that is not UTF-8 and the code-point reader on the decoded text otherwise; the
+   round trip holds on the bytes. *)
+Theorem C03_utf8_decode_iff : forall bs s, utf8_decode bs = Some s <-> (scalar_only s = true /\ utf8 s = bs).
+Proof. exact utf8_decode_iff. Qed.
+Print Assumptions C03_utf8_decode_iff.
+
+Theorem C03_read_bytes_spec : forall n bs,
+  read_bytes n bs = match utf8_decode bs with Some t => read n t | None => Err end.
+Proof. exact read_bytes_spec. Qed.
+Print Assumptions C03_read_bytes_spec.
+
+Theorem C03_read_bytes_ok : forall n bs M, read_bytes n bs = Ok M ->
+  exists t, scalar_only t = true /\ bs = utf8 t /\ read n t = Ok M.
+Proof. exact read_bytes_ok. Qed.
+Print Assumptions C03_read_bytes_ok.
+
+Theorem C03_write_scalar : forall M t, rust_strings M = true -> write M = Ok t -> scalar_only t = true.
+Proof. exact write_scalar. Qed.
+Print Assumptions C03_write_scalar.
+
+Theorem C03_read_write_bytes : forall M,
+  wf M = true -> textual M = true -> rust_strings M = true ->
+  exists bs, write_bytes M = Ok bs /\ utf8_decode bs <> None
+             /\ read_bytes (length (ms_ns M)) bs = Ok (canon M).
+Proof. exact read_write_bytes. Qed.
+Print Assumptions C03_read_write_bytes.
+
+(* escape, unescape and TinyLine::new run on `str`; on the bytes they do the same thing (they
+   only look at ASCII characters, so they never cut a multi-byte character) *)
+Theorem C03_escape_utf8 : forall s, escape (utf8 s) = utf8 (escape s).
+Proof. exact escape_utf8. Qed.
+Print Assumptions C03_escape_utf8.
+
+Theorem C03_unescape_utf8 : forall s, unescape (utf8 s) = utf8 (unescape s).
+Proof. exact unescape_utf8. Qed.
+Print Assumptions C03_unescape_utf8.
+
+Theorem C03_unescape_escape_bytes : forall s, unescape (escape (utf8 s)) = utf8 s.
+Proof. exact unescape_escape_bytes. Qed.
+Print Assumptions C03_unescape_escape_bytes.
+
+Theorem C03_tiny_line_utf8 : forall s, tiny_line (utf8 s) = tline_utf8 (tiny_line s).
+Proof. exact tiny_line_utf8. Qed.
+Print Assumptions C03_tiny_line_utf8.
+
+(* Th 9 — line endings, with the exact side conditions *)
+Theorem C03_read_crlf : forall n t, no_cr_lf t = true ->
+  read n (crlf t) = read n t /\ read_bytes n (crlf t) = read_bytes n t.
+Proof. exact read_crlf_both. Qed.
+Print Assumptions C03_read_crlf.
+
+Theorem C03_crlf_condition_needed : crlf_condition_needed.
+Proof. exact crlf_condition_needed_holds. Qed.
+Print Assumptions C03_crlf_condition_needed.
+
+Theorem C03_read_final_lf : forall n t0 c, c <> cLF -> c <> cCR ->
+  read n ((t0 ++ [c]) ++ [cLF]) = read n (t0 ++ [c]).
+Proof. exact read_final_lf. Qed.
+Print Assumptions C03_read_final_lf.
+
+Theorem C03_final_cr_example : final_cr_example.
+Proof. exact final_cr_example_holds. Qed.
+Print Assumptions C03_final_cr_example.
+
+Theorem C03_read_extra_lf : forall n t0,
+  read n ((t0 ++ [cLF]) ++ [cLF]) = read n (t0 ++ [cLF])
+  /\ read_bytes n ((t0 ++ [cLF]) ++ [cLF]) = read_bytes n (t0 ++ [cLF]).
+Proof. exact read_extra_lf_both. Qed.
+Print Assumptions C03_read_extra_lf.
+
+Theorem C03_top_loop_consumes_all : forall fuel ls f rest, build fuel 0 ls = Ok (f, rest) -> rest = [].
+Proof. exact top_loop_consumes_all. Qed.
+Print Assumptions C03_top_loop_consumes_all.
+
+Theorem C03_blank_middle_example : blank_middle_example.
+Proof. exact blank_middle_example_holds. Qed.
+Print Assumptions C03_blank_middle_example.
+
+(* Th 10 — the model's tables are the source's: C03/SrcGen.v is regenerated from quill's sources
+   on every run.  The writer's order is the derived lexicographic Ord of the info structs in
+   their declared field order (descriptor before names, index before names), sorted by
+   `&x.info` at all four levels; the escape tables are lookups in ESCAPES; the header literals. *)
+Theorem C03_writer_order_from_source : writer_order_from_source.
+Proof. exact writer_order_from_source_holds. Qed.
+Print Assumptions C03_writer_order_from_source.
+
+Theorem C03_escapes_from_source :
+  (forall c, esc_char c = lookup_fst c escapes_src) /\ (forall e, unesc_char e = lookup_snd e escapes_src)
+  /\ escapes_table_ok escapes_src = true.
+Proof. exact escapes_from_source. Qed.
+Print Assumptions C03_escapes_from_source.
+
+(* the escaping scheme round-trips over ANY table that holds the backslash and no letter twice;
+   the model's escape / unescape are that scheme over the table of the source *)
+Theorem C03_escaping_scheme : escaping_scheme.
+Proof. exact escaping_scheme_holds. Qed.
+Print Assumptions C03_escaping_scheme.
+
+Theorem C03_header_from_source : (s_tiny, [c_2], [c_0]) = (hdr_tag, hdr_major, hdr_minor).
+Proof. exact header_from_source. Qed.
+Print Assumptions C03_header_from_source.
+
 (* non-vacuity *)
 Theorem C03_example : nonvacuous.
 Proof. exact nonvacuous_holds. Qed.
 Print Assumptions C03_example.
+
+Theorem C03_example_rust_strings : rust_strings ex_mappings = true.
+Proof. exact ex_rust_strings. Qed.
+Print Assumptions C03_example_rust_strings.
